@@ -55,7 +55,7 @@ VARIABLES payload,  \* payload type of this execution
 
 vars    == <<payload, feat, cell, w, last, hist>>
 absvars == <<payload, feat, cell, w>>
-SetupOps == {"Make", "CopyW", "MoveW"}
+SetupOps == {"Make", "CopyW", "MoveW", "RelocW"}
 NOps == Cardinality({i \in 1..Len(hist) : hist[i].op \notin SetupOps})      \* calls made after the set-up phase
 stageview == <<payload, feat, cell, w, NOps>>        \* staged enumeration: a state of the set-up phase is expanded even if a later call also leads to it
 depthview == <<payload, feat, cell, w, Len(hist)>>   \* model checking with several workers: (state, depth) pairs, so that the explored set does not depend on scheduling
@@ -242,9 +242,13 @@ WriteVar(cls, i, v) ==
 (* Reading through a wrapper, by every access path.  Result per component:  *)
 (* which object the returned reference designates (or "value" when the call  *)
 (* returns by value) and the value read.                                      *)
-ByValForms == {"rget", "conv", "cconv", "rv", "crv", "rfree"}   \* return a value when the closure owns its value
+ByValForms == {"rget", "conv", "cconv", "rv", "crv", "rfree", "rbind"}   \* return a value when the closure owns its value
+(* rbind:  auto&& r = W(w).get();  -- the rvalue accessor of a TEMPORARY copy of the wrapper, its result bound to a     *)
+(* reference; the temporary wrapper is gone at the end of the declaration and r is read afterwards: for a reference      *)
+(* closure r is the caller's object, for an owning one r must be a value of its own (lifetime-extended), never a         *)
+(* reference into the dead wrapper ("stays valid after the temporary is gone")                                           *)
 FormsOf(W) ==
-    CASE W.kind = "cw" -> {"get", "cget", "rget", "conv", "cconv"}
+    CASE W.kind = "cw" -> {"get", "cget", "rget", "conv", "cconv", "rbind"}
       [] W.kind = "pw" -> IF IsRef(W, 1) THEN {"get", "cget", "rget", "conv", "cconv"} ELSE {"base"}
       [] W.kind = "cp" -> {"deref", "cderef", "arrow"}
       [] W.kind \in {"opt", "ob", "cx"} -> {"lv", "clv", "rv", "crv", "free", "cfree", "rfree"}   \* members and the free functions value/has_value, real/imag
@@ -256,6 +260,7 @@ ReadItem(W, i, form) ==
     LET byval == IsOwn(W, i) /\ form \in ByValForms
     IN [ts |-> IF IsBit(W, i) THEN {"bit"}
                ELSE IF IsRef(W, i) THEN {W.c[i].id}
+               ELSE IF form = "rbind" THEN {"value"}
                ELSE IF byval THEN {"value", "self"} ELSE {"self"},
         v  |-> IF form = "neg" THEN 1 - Val(W.c[i].id) ELSE Val(W.c[i].id)]
 Read(k, form) ==
@@ -309,7 +314,7 @@ AssignComp(k, i, v, form) ==
 (* the same object as the source's; owned components are new objects.        *)
 (* (the source expression of a copy is the wrapper as a const lvalue, form "clv", or as a non-const  *)
 (* lvalue, form "lv": the copy is the same either way)                                               *)
-Clone(k, j, move, form) ==
+Clone0(op, k, j, move, form) ==
     /\ k # j /\ w[j] # NoW /\ w[j].kind # "fs"
     /\ form \in (IF move THEN {"xv"} ELSE {"clv", "lv"})
     /\ (HasOwn(w[j]) /\ (~move \/ \E i \in Comps(w[j]) : IsOwn(w[j], i) /\ ~w[j].c[i].wr)) => Copyable
@@ -317,11 +322,17 @@ Clone(k, j, move, form) ==
            W  == [kind |-> J.kind,
                   c |-> [i \in Comps(J) |-> IF IsRef(J, i) THEN J.c[i] ELSE [m |-> "own", id |-> OId(k, i), wr |-> J.c[i].wr]]]
            c1 == SetOwn(KillOwn(cell, k), k, W, [i \in Comps(J) |-> Val(J.c[i].id)])
-       IN Do(IF move THEN "MoveW" ELSE "CopyW", k, IF move THEN [j |-> j] ELSE [j |-> j, form |-> form],
+       IN Do(op, k, IF move THEN [j |-> j] ELSE [j |-> j, form |-> form],
              Res(IF PayloadAllRef(J) THEN "none" ELSE "any", "na", <<>>),
              c1, [w EXCEPT ![k] = W], IF move THEN OwnIdsOf(J) ELSE {})
+Clone(k, j, move, form) == Clone0(IF move THEN "MoveW" ELSE "CopyW", k, j, move, form)
 CopyW(k, j, form) == Clone(k, j, FALSE, form)
 MoveW(k, j) == Clone(k, j, TRUE, "xv")
+(* the wrapper of slot j is put into a container (std::vector<xclosure_wrapper<CT>>::push_back(std::move(w_j))), the     *)
+(* container grows and relocates its elements, and slot k takes the relocated element: however often the container  *)
+(* moved or copied it on the way, a reference closure still designates the caller's object (and no payload object   *)
+(* was constructed), an owning one still holds the value.  The source is moved from.                                 *)
+RelocW(k, j) == w[j] # NoW /\ w[j].kind = "cw" /\ Clone0("RelocW", k, j, TRUE, "xv")
 
 ----------------------------------------------------------------------------
 (* Assignment between wrappers: the value(s) designated by j are assigned to *)
@@ -438,7 +449,7 @@ C(c) == /\ c \in Classes
              THEN IF c \in {"make", "clone"} THEN NOps = 0 /\ Len(hist) < Depth ELSE NOps < Ops
              ELSE Len(hist) <= Depth
 (* one named action per public call family, so that TLC's coverage reports each of them *)
-AllForms == {"get", "cget", "rget", "conv", "cconv", "base", "deref", "cderef", "arrow",
+AllForms == {"get", "cget", "rget", "rbind", "conv", "cconv", "base", "deref", "cderef", "arrow",
              "lv", "clv", "rv", "crv", "free", "cfree", "rfree", "neg"}
 AMake       == C("make") /\ \E k \in 1..NW, kind \in Kinds : \E via \in Vias(kind) :
                   \/ NComp(kind) = 1 /\ \E s1 \in SrcsFor(kind, 1) : Make(k, kind, via, <<s1>>)
@@ -452,11 +463,12 @@ AAssign     == C("assign") /\ \E k \in 1..NW, v \in Vals \cup {0, 1}, cat \in {"
 AAssignComp == C("assign") /\ \E k \in 1..NW, i \in 1..2, v \in Vals \cup {0, 1}, form \in {"lv", "rv"} : AssignComp(k, i, v, form)
 ACopyW      == C("clone") /\ \E k, j \in 1..NW, form \in {"clv", "lv"} : CopyW(k, j, form)
 AMoveW      == C("clone") /\ \E k, j \in 1..NW : MoveW(k, j)
+ARelocW     == C("clone") /\ \E k, j \in 1..NW : RelocW(k, j)
 AAssignW    == C("pair") /\ \E k, j \in 1..NW, mv \in {0, 1} : AssignW(k, j, mv)
 ASwap       == C("pair") /\ \E k, j \in 1..NW, how \in {"member", "adl"} : Swap(k, j, how)
 AEqual      == C("pair") /\ \E k, j \in 1..NW : Equal(k, j)
 AAddrOf     == C("addr") /\ \E k \in 1..NW, form \in {"lv", "clv", "rv"}, wr \in {NoWrite, 0} \cup Vals : AddrOf(k, form, wr)
-Next == AMake \/ ADestroy \/ AEndTemps \/ AWriteVar \/ ARead \/ AValueOr \/ AAssign \/ AAssignComp \/ ACopyW \/ AMoveW
+Next == AMake \/ ADestroy \/ AEndTemps \/ AWriteVar \/ ARead \/ AValueOr \/ AAssign \/ AAssignComp \/ ACopyW \/ AMoveW \/ ARelocW
         \/ AAssignW \/ ASwap \/ AEqual \/ AAddrOf
 
 Spec == Init /\ [][Next]_vars
@@ -508,10 +520,10 @@ NoCopyForLvalues == [][
 (* only construction and destruction change what a wrapper designates: assignment never rebinds *)
 BindingOf(W) == [i \in Comps(W) |-> <<W.c[i].m, W.c[i].id>>]
 NeverRebinds == [][
-    \A k \in 1..NW : (~(last'.op \in {"Make", "Destroy", "CopyW", "MoveW"} /\ last'.k = k)) => w'[k] = w[k] ]_vars
+    \A k \in 1..NW : (~(last'.op \in {"Make", "Destroy", "CopyW", "MoveW", "RelocW"} /\ last'.k = k)) => w'[k] = w[k] ]_vars
 (* copies designate the same referents *)
 CopiesAlias == [][
-    (last'.op \in {"CopyW", "MoveW"}) =>
+    (last'.op \in {"CopyW", "MoveW", "RelocW"}) =>
        LET k == last'.k  j == last'.a.j IN
        \A i \in Comps(w[j]) : IF IsRef(w[j], i) THEN w'[k].c[i] = w[j].c[i]
                               ELSE w'[k].c[i].id = OId(k, i) /\ (last'.op = "CopyW" => cell'[OId(k, i)].val = cell[w[j].c[i].id].val)
